@@ -79,7 +79,8 @@ func NewPullClient(localPath, remoteURL string) (*PullClient, error) {
 	// 如果没有 port，补上默认端口
 	port := url.Port()
 	if len(port) == 0 {
-		url.Host = url.Hostname() + ":554"
+		// JoinHostPort 会为 IPv6 字面地址重新加上方括号（Hostname() 已去掉）
+		url.Host = net.JoinHostPort(url.Hostname(), "554")
 	}
 
 	// 提取用户名和密码
